@@ -129,6 +129,34 @@ CLAIMS = {
         "note": _TRUST + "http.client's _tunnel()/set_tunnel are trusted for the CONNECT exchange itself. F11 (C04-R8, shared) is a known finding.",
         "technique": "static analysis: decision-table extraction, taint/provenance through abstract interpretation of the drivers, event-order typestate in connect()",
     },
+    "C10": {
+        "text": ("Decides that every caller string reaches the socket only through a validator or an encoder whose accepted language "
+                 "excludes the separators: putrequest searches the whole method for a character outside a negated class whose complement "
+                 "is within RFC 7230 token characters (no CTL, SP, colon, non-ASCII) and raises before delegating (method, url) to the "
+                 "stdlib putrequest, which validates method and path (read from http/client.py); every target handed to _make_request "
+                 "is _encode_target(url) or parse_url(url).url, the encoder's allowed sets fold to RFC 3986 characters (no SP/CR/LF/#/%) "
+                 "and it keeps a raw byte only if allowed ASCII or a '%' of a fully percent-encoded component, else writes %XX; "
+                 "_TARGET_RE drops the fragment; request() produces output only through putrequest/putheader/endheaders/send, passes every "
+                 "caller header through putheader whose override delegates all non-sentinel values to the validating stdlib putheader; no "
+                 "raw socket write exists in live connection.py code and body bytes follow endheaders(); Host/Accept-Encoding are "
+                 "suppressed and User-Agent added by case-insensitive presence; SKIP_HEADER elsewhere raises; HTTP/2 name pattern is "
+                 "lower-case tchar anchored with \\Z, value pattern rejects NUL/CR/LF anywhere and edge SP/HTAB, both before the append. "
+                 "Declined: byte-level equality of the written request."),
+        "note": _TRUST + "http.client's own validators are trusted as read from its source on every run. F9 was repaired.",
+        "technique": "static analysis: regex structure analysis of folded patterns, constant folding of character sets, sanitizer-on-every-flow provenance, who-writes-to-socket query",
+    },
+    "C11": {
+        "text": ("Decides framing choice and resend threading structurally: the complete framing decision table of "
+                 "HTTPConnection.request (chunked flag x caller CL/TE x body shape) - caller framing respected, otherwise exactly one of "
+                 "Content-Length/Transfer-Encoding, none for body-less no-body methods, CL 0 otherwise, send mode and single terminator "
+                 "following the framing; Content-Length is str(content_length) of body_to_chunks; chunk frames are (len(x), x) of one "
+                 "object, empty chunks skipped, str encoded before measuring; body_to_chunks per body kind measures the very object it "
+                 "sends; every pool-level resend carries the caller's body and the position recorded by set_file_position before the "
+                 "first attempt, and a body-less (303) resend carries no position; rewind_body seeks or raises UnrewindableBodyError, "
+                 "_FAILEDTELL always raises it. Declined: payload byte equality."),
+        "note": _TRUST + "Known findings: F5 (manager-level resend has no body_pos), F6a/F6b (bodies without tell() / iterators are re-sent empty). F13 (303 + seekable body raised ValueError) was found by these rules' development and repaired in /repo.",
+        "technique": "static analysis: decision-table extraction on request()/body_to_chunks/rewind_body, provenance tags at resend sites, sibling cross-check of classifiers",
+    },
     "C16": {
         "text": ("Deliberately narrow. Decides only the storage discipline behind the multimap: every access to the storage dict uses a "
                  "lower-cased key; every list stored is built in that statement, copies build per-key fresh lists and no method returns a "
@@ -177,4 +205,4 @@ CLAIMS = {
 _PENDING = "check not built yet in this session (static rules designed in DESIGN.md section 5); will be claimed once its rules run clean"
 
 NOT_APPLICABLE = {pid: _PENDING for pid in
-                  ["C10", "C11", "C12", "C13", "C14", "C15", "C19"]}
+                  ["C12", "C13", "C14", "C15", "C19"]}
